@@ -854,6 +854,7 @@ func TestVerifC15(t *testing.T) {
 	r.Bound("P0", "sub-pool: query, foreign sequences, single edits at positions 0,1,L/2,L-1, 14 double edits")
 	r.Bound("trees", "caterpillar, binary, bushy (7 nodes each)")
 	r.Bound("database_sizes", "1..3 references (IndexSequence: 2..4)")
+	r.Bound("short", "queries and references over {a,c}, length 1..5, all ordered pairs")
 
 	leaves := []int{10, 11, 12, 4} // caterpillar: one node per LCA level of the lineage 1-2-3-4
 	k := 0                         // work item counter
@@ -864,6 +865,30 @@ func TestVerifC15(t *testing.T) {
 		r.Count("ms_"+name, time.Since(t0).Milliseconds())
 		r.Count("evals_"+name, r.Evaluations-ev0)
 	}
+	// ---- part A0: sequences too short to have (many) 4-mers: every query over {a,c} of length 1..5
+	// against every ordered pair of such references (no k-mer pruning is possible here; exercises the
+	// tie handling and the one-difference shortcut on very short sequences)
+	timed("find_short", func() {
+		short := verifkit.AllStrings("ac", 1, 5)
+		for _, q := range short {
+			if r.Mine(k) {
+				p := c15newPool(q)
+				for _, s := range short {
+					p.addDup(s)
+				}
+				p.finish()
+				for impl := 0; impl < 2; impl++ {
+					for a := 1; a <= len(short); a++ {
+						for b := 1; b <= len(short); b++ {
+							scratch[0], scratch[1] = a, b
+							e.evalFind(impl, p, scratch[:2])
+						}
+					}
+				}
+			}
+			k++
+		}
+	})
 	for qi, q := range c15queries {
 		if r.Expired() {
 			return
@@ -894,15 +919,18 @@ func TestVerifC15(t *testing.T) {
 					}
 				}
 				k++
-				// A2: every ordered pair (a,b) with a in P1, b in P1 u P2, both orders;
-				// thorough, queries up to length 11: a in P1 u P2 as well
-				amax := n1
+				// A2: every ordered pair (a,b) with a in P1, b in P1 u P2, both orders (quick, obitag2:
+				// b in P1); thorough, queries up to length 11: a in P1 u P2 as well
+				amax, bmax := n1, n
 				if thorough && len(q) <= 11 {
 					amax = n
 				}
+				if !thorough && impl == 1 {
+					bmax = n1 // quick: obitag2 (a near copy of the obitag search) only on P1 x P1
+				}
 				for a := 0; a < amax; a++ {
 					if r.Mine(k) {
-						for b := a; b < n; b++ {
+						for b := a; b < bmax; b++ {
 							scratch[0], scratch[1] = a, b
 							e.evalFind(impl, p, scratch[:2])
 							if impl == 0 {
